@@ -4,7 +4,7 @@ slot=$1; pre=$2; shift 2
 mkdir -p /tmp/seedlogs
 for it in "$@"; do
   p=${it%%:*}; k=${it##*:}
-  d=/tmp/mut3_${p}_out/mut_$k
+  d=/tmp/${MUTPRE:-mut3}_${p}_out/mut_$k
   [ -d "$d" ] || { echo "$it: no dir $d"; continue; }
   SEED_WT=/tmp/seed_wt_$slot VERIF_JOBS=${VERIF_JOBS:-6} python3 /verif/seedtest.py $p $d $p-${pre}m$k ${SEED_CHECKS:+--checks $SEED_CHECKS} $SEED_ARGS > /tmp/seedlogs/$p-${pre}m$k.log 2>&1
   echo "$it: $(grep -m1 '^{"seed"' /tmp/seedlogs/$p-${pre}m$k.log)"
